@@ -23,6 +23,36 @@ META = (
 )
 
 
+def option_edges(init, opt):
+    """The two edges of the one decision on the option `opt`: (name bound to the payload, node of the Some edge or None when it is the identity,
+    node of the None edge).  Forms: `if let Some(x) = opt {A} else {B}`, `match opt { Some(x) => A, None | _ => B }`,
+    `opt.unwrap_or_else(|| B)`, `opt.map_or_else(|| B, |x| A)`."""
+    if init is None:
+        return None
+    k = init.get("k")
+    if k == "if" and init.get("e") is not None and init["c"].get("k") == "let" and show(init["c"]["e"]) == opt and pat_head(init["c"]["pat"]) == "Some" and init["c"]["pat"].get("e"):
+        return show(init["c"]["pat"]["e"][0]), init["t"], init["e"]
+    if k == "match" and show(init["e"]) == opt:
+        some = none = None
+        for arm in init["arms"]:
+            if arm.get("guard") is not None:
+                return None
+            h = pat_head(arm["pat"])
+            if h == "Some" and arm["pat"].get("e"):
+                some = (show(arm["pat"]["e"][0]), arm["body"])
+            elif h in ("None", "_"):
+                none = arm["body"]
+        if some and none is not None:
+            return some[0], some[1], none
+        return None
+    if k == "mcall" and show(init["r"]) == opt and init["m"] == "unwrap_or_else" and len(init["a"]) == 1 and init["a"][0].get("k") == "closure":
+        return "<payload>", None, init["a"][0]["body"]
+    if k == "mcall" and show(init["r"]) == opt and init["m"] == "map_or_else" and len(init["a"]) == 2 and all(a.get("k") == "closure" for a in init["a"]):
+        names = [x["n"] for x in walk(init["a"][1]["params"][0]) if x.get("k") == "p_ident"] if init["a"][1]["params"] else []
+        return (names[0] if names else "?"), init["a"][1]["body"], init["a"][0]["body"]
+    return None
+
+
 def r1(ctx, rep):
     rep.rule("C18.R1", "the header is consulted only when no option is given; the option reaches the generator unchanged", floor=4)
     syn = ctx.syn
@@ -38,16 +68,17 @@ def r1(ctx, rep):
     if len(news0) == 1 and news0[0]["a"][0].get("k") == "path":
         loc = guards.visible_def_nodes(par_, news0[0]["a"][0], news0[0]["a"][0]["p"])
     opt_param = next((p["name"] for p in f["params"] if "Option<Dialect>" in p["ty"]), "dialect")
-    if loc is None or loc["init"].get("k") != "if":
-        rep.bad("shape", "compile_query must resolve the effective dialect in one `let dialect = if let Some(..) = dialect {..} else {..}`", file=f["file"], line=f["l"], fn=f["path"])
+    edges = option_edges(loc["init"], opt_param) if loc is not None else None
+    if edges is None:
+        rep.bad("shape", "compile_query must resolve the effective dialect by one decision on the option: `if let Some(d) = dialect {d} else {<header>}`, a `match` on it, or "
+                "`dialect.unwrap_or_else(|| <header>)` / `map_or_else`", file=f["file"], line=f["l"], fn=f["path"])
         return
+    bound, some_node, none_node = edges
     i = loc["init"]
-    c = i["c"]
-    some_edge = c.get("k") == "let" and show(c["e"]) == opt_param and pat_head(c["pat"]) == "Some"
-    bound = show(c["pat"]["e"][0]) if some_edge and c["pat"].get("e") else None
-    then_val = show(tail_expr(i["t"])) if tail_expr(i["t"]) is not None else show_stmts(i["t"])
-    rep.check(some_edge and then_val == bound and len(i["t"]["s"]) == 1, "option-wins",
+    then_val = bound if some_node is None else (show(tail_expr(some_node)) if some_node.get("k") == "block" and tail_expr(some_node) is not None and len(some_node["s"]) == 1 else show(some_node))
+    rep.check(then_val == bound, "option-wins",
               f"on the `Some` edge the option's payload must be the effective dialect, unchanged (found `{then_val}`)", file=f["file"], line=i["l"], fn=f["path"])
+    i = dict(i, e=none_node)
     # header lookup only inside the else branch
     else_txt = show_stmts(i.get("e"), maxdepth=14)
     header_reads = [n for n in walk(f["body"]) if n.get("k") == "mcall" and n["m"] == "get" and lit_val(n["a"][0]) == "target" if n["a"]]
